@@ -7,6 +7,7 @@ import DvcData.Model.Tree
 import DvcData.Model.Serialize
 import DvcData.Model.Status
 import DvcData.Model.Transfer
+import DvcData.Model.IndexDiff
 open Lean DvcData
 
 /-! Line-protocol driver: one JSON request per line on stdin, one JSON answer per line on stdout.
@@ -329,6 +330,44 @@ def opGc (j : Lean.Json) : Except String Lean.Json := do
   | .notFound => pure (Lean.Json.mkObj [("err", "FileNotFoundError")])
   | .ok n st => pure (Lean.Json.mkObj [("removed", n), ("store", strArr st)])
 
+/-! ### index diff -/
+
+def indexOf (j : Lean.Json) : Except String (Option IndexDiff.Index) :=
+  match j with
+  | .null => pure none
+  | j => do
+    let es ← (← j.getArr?).toList.mapM fun e => do pure (← keyOf (← e.getObjVal? "key"), ← entryOf e)
+    pure (some es)
+
+def optsOf (j : Lean.Json) : Except String IndexDiff.Opts := do
+  let c := match j.getObjVal? "cmp" with | .ok (.str "dirExec") => IndexDiff.Cmp.dirExec | _ => IndexDiff.Cmp.full
+  pure { withUnchanged := boolOf j "with_unchanged", hashOnly := boolOf j "hash_only", metaOnly := boolOf j "meta_only",
+         shallow := boolOf j "shallow", withRenames := boolOf j "with_renames", cmp := c }
+
+def typTo : IndexDiff.Typ → String
+  | .add => "add" | .modify => "modify" | .delete => "delete" | .unchanged => "unchanged" | .rename => "rename"
+
+def optKeyTo (o : Option (Path.Key × MetaInfo.Entry)) : Lean.Json :=
+  match o with | some p => keyTo p.1 | none => .null
+
+def opIndexDiff (j : Lean.Json) : Except String Lean.Json := do
+  let old ← indexOf (j.getObjVal? "old" |>.toOption.getD .null)
+  let new ← indexOf (j.getObjVal? "new" |>.toOption.getD .null)
+  let o ← optsOf (← j.getObjVal? "opts")
+  let cs := IndexDiff.diff o old new
+  pure (Lean.Json.mkObj [("changes", Lean.Json.arr (cs.map fun c =>
+    Lean.Json.arr #[.str (typTo c.typ), optKeyTo c.old, optKeyTo c.new]).toArray)])
+
+def optEntryOf (j : Lean.Json) : Except String (Option MetaInfo.Entry) :=
+  match j with | .null => pure none | j => do pure (some (← entryOf j))
+
+def opDiffEntry (j : Lean.Json) : Except String Lean.Json := do
+  let rows ← (← arr j "rows").toList.mapM fun r => do
+    let o ← optsOf (← r.getObjVal? "opts")
+    pure (typTo (IndexDiff.diffEntry o (← optEntryOf (r.getObjVal? "old" |>.toOption.getD .null))
+                                       (← optEntryOf (r.getObjVal? "new" |>.toOption.getD .null))))
+  pure (Lean.Json.mkObj [("typ", strArr rows)])
+
 def kindOf (s : String) : Except String Merge.Kind :=
   match s with
   | "add" => pure .add | "remove" => pure .remove | "change" => pure .change
@@ -362,6 +401,8 @@ def dispatch (j : Json) : Except String Json := do
   | "compare" => opCompare j
   | "transfer" => opTransfer j
   | "gc" => opGc j
+  | "index_diff" => opIndexDiff j
+  | "diff_entry" => opDiffEntry j
   | "ping" => pure (Json.mkObj [("pong", true)])
   | op => throw s!"unknown op {op}"
 
